@@ -205,6 +205,9 @@ type VCluster struct {
 	seq      int
 	failOnce bool
 	loseOnce bool
+	// Concurrent: the cluster is driven by the concurrent scenarios (a report may be delivered after a
+	// truncation already removed its checkpoint)
+	Concurrent bool
 	flight   *Mutation
 	// per-report verdict bookkeeping
 	Checked       int
@@ -484,6 +487,14 @@ func (c *VCluster) checkReports() {
 		for _, r := range nd.reports {
 			c.Checked++
 			c.LastReports = append(c.LastReports, ReportRef{nd.id, r.Range.Start, r.Range.End})
+			if c.flight == nil && len(nd.cs.mut) == 0 && !c.Concurrent {
+				// reports are delivered while the cluster is quiescent after the event that stored their
+				// checkpoint: the node holds that checkpoint, with the sum the report expects
+				if e := c.raw(nd, r.Range.End); e == nil || len(e.Extensions) < 24 || leU64(e.Extensions[16:24]) != r.ExpectedSum {
+					c.Viol = append(c.Viol, Violation{Prop: "C16", Msg: fmt.Sprintf("node %d delivered a report for range %s (expected sum %x) but stores no checkpoint with that sum at index %d: a report about a checkpoint the node never stored (err=%v)", nd.id, r.Range, r.ExpectedSum, r.Range.End, r.Err)})
+					continue
+				}
+			}
 			tr, ok := c.truth[fmt.Sprintf("%d-%d-%x", r.Range.Start, r.Range.End, r.ExpectedSum)]
 			if !ok {
 				if c.flight != nil || len(nd.cs.mut) > 0 {
